@@ -1308,8 +1308,22 @@ impl World {
             self.unsettled_completion = false;
         }
 
-        // --- per-op result rules
+        // --- nothing may report success before its packet is on the wire (holds in every situation, also with a stalled writer)
         let nops = if self.light { 0 } else { self.m.len() };
+        for i in 0..nops {
+            if self.m[i].submitted && !self.m[i].dropped && !self.m[i].checked_done && self.m[i].req_wire.is_none() {
+                if let Some(o) = &self.sim.ops[i].out {
+                    if o.is_ok() {
+                        let k = self.m[i].kind;
+                        let o = o.brief();
+                        self.viol(P_C05_06, format!("C06/success-before-written/{}", k.name()), format!("op{i} ({}) completed with {o} although its packet has not been written to the transport", k.name()));
+                        self.m[i].checked_done = true;
+                    }
+                }
+            }
+        }
+
+        // --- per-op result rules
         for i in 0..nops {
             if self.m[i].dropped || self.sim.ops[i].held {
                 continue;
